@@ -325,6 +325,11 @@ def addIssued (s : State) (t : Token) : State :=
            owners := AMap.set s.owners (t.owner, t.symbol) t.symbol,
            bank := s.bank.mint t.owner t.minUnit (t.initialSupply * pow10 t.scale) }
 
+/-- `NewToken` as `IssueToken` calls it -/
+def issuedToken (owner symbol name minUnit : String) (scale init max : Nat) (mintable : Bool) : Token :=
+  { symbol := symbol, name := name, scale := scale, minUnit := minUnit, initialSupply := init,
+    maxSupply := defaultMax init max mintable, mintable := mintable, owner := owner }
+
 def stepIssue (s : State) (owner symbol name minUnit : String) (scale init max : Nat)
     (mintable : Bool) : R :=
   if !(issueValid owner symbol name minUnit scale init max mintable) then .error (.reject "invalid message") else
@@ -334,9 +339,7 @@ def stepIssue (s : State) (owner symbol name minUnit : String) (scale init max :
   | .ok s1 =>
     if AMap.contains s1.tokens symbol then .error (.reject "symbol already exists") else
     if AMap.contains s1.minUnits minUnit then .error (.reject "min unit already exists") else
-    .ok (addIssued s1 { symbol := symbol, name := name, scale := scale, minUnit := minUnit,
-                        initialSupply := init, maxSupply := defaultMax init max mintable,
-                        mintable := mintable, owner := owner })
+    .ok (addIssued s1 (issuedToken owner symbol name minUnit scale init max mintable))
 
 /-- the token after `EditToken`'s field updates -/
 def edited (t : Token) (name : String) (max : Nat) (mintable : String) : Token :=
@@ -364,16 +367,19 @@ def mintChecked (s : State) (owner rcpt denom : String) (amount : Nat) : R :=
     if t.maxSupply * pow10 t.scale < supplyOf s t.minUnit + amount then .error (.reject "exceeds mintable amount") else
     .ok { s with bank := s.bank.mint rcpt denom amount }
 
+/-- the recipient of a mint / swap: the sender when none is given -/
+def rcptOf (owner to : String) : String := if to = "" then owner else to
+
 def stepMint (s : State) (owner to denom : String) (amount : Int) : R :=
   if !(isAddr owner && (to = "" || isAddr to) && decide (0 < amount) && validSymbol denom) then
     .error (.reject "invalid message") else
-  if blocked s (if to = "" then owner else to) then .error (.reject "recipient is a blocked module account") else
+  if blocked s (rcptOf owner to) then .error (.reject "recipient is a blocked module account") else
   match AMap.get? s.minUnits denom with
   | none => .error (.reject "min unit does not exist")
   | some sym =>
     match deductFee s owner (mintFee s sym.length) with
     | .error e => .error e
-    | .ok s1 => mintChecked s1 owner (if to = "" then owner else to) denom amount.toNat
+    | .ok s1 => mintChecked s1 owner (rcptOf owner to) denom amount.toNat
 
 def stepBurn (s : State) (sender denom : String) (amount : Int) : R :=
   if !(isAddr sender && decide (0 < amount) && validSymbol denom) then .error (.reject "invalid message") else
@@ -418,7 +424,7 @@ def stepSwapFee (s : State) (sender to denom : String) (amount : Int) : R :=
       | some tm =>
         match lossLess amount ratio tb.scale tm.scale with
         | none => .error (.panic "dec overflow")
-        | some (b, m) => swapMoves s sender (if to = "" then sender else to) tb.minUnit target b m
+        | some (b, m) => swapMoves s sender (rcptOf sender to) tb.minUnit target b m
 
 /-- `buildERC20Token`: the existing token of `minUnit`, or a new one for an ICS20 denom -/
 def buildErc20Token (s : State) (name symbol minUnit : String) (scale : Nat) : Except Err Token :=
